@@ -1,7 +1,62 @@
 """C05 — tainted pointer arithmetic stays in the sandbox and uses the sandbox stride."""
+import os
+import re
+from harness import vlib, m3_ast, m3_ptr
 from harness.props.ptrcommon import *
 PROP = "C05"
-COQ_FILES = ["Machine.v", "Ptr.v", "Ptr_proofs.v", "Layout.v"]
+COQ_FILES = ["Machine.v", "Ptr.v", "Ptr_proofs.v", "Layout.v", "PtrAst.v"]
+M3 = {}
+
+
+def pre_generate(ctx):
+    """M3 for the pointer operators: clang's AST of the instantiated tainted<double*>::operator+<K>, operator-<K>,
+    operator[]<K&> (15 integer K) is translated into programs of coq/PtrAst.v; the kernel proves each equal to
+    Ptr.ptr_arith / Ptr.ptr_index_gen for EVERY region list, stride, pointer and operand"""
+    M3.clear()
+    try:
+        progs = m3_ptr.translate(vlib.INCLUDE, ctx.build)
+    except m3_ast.Unknown as ex:
+        M3["untranslated"] = str(ex)
+        return
+    text = m3_ptr.emit(progs)
+    lock = vlib.coq_lock()
+    try:
+        with open(os.path.join(vlib.COQ, "Gen_PtrPrograms.v"), "w") as f:
+            f.write(text)
+        rc, out = vlib.sh(["timeout", "600", "coqc", "-Q", ".", "RLBoxV", "Gen_PtrPrograms.v"], cwd=vlib.COQ, timeout=700)
+    finally:
+        lock.close()
+    M3["lemmas"] = text.count("Lemma ")
+    M3["failed"] = []
+    if rc != 0:
+        m = re.search(r'line (\d+)', out)
+        name = "?"
+        if m:
+            lines = text.splitlines()
+            for k in range(min(int(m.group(1)), len(lines)) - 1, -1, -1):
+                if lines[k].startswith("Lemma ") or lines[k].startswith("Definition "):
+                    name = lines[k].split()[1]
+                    break
+        M3["failed"].append((name, out[-1500:]))
+    M3["sample"] = {"%s<%s>" % k: str(v) for k, v in list(sorted(progs.items()))[3::17]}
+
+
+def extra_checks(ctx, exes):
+    if "untranslated" in M3:
+        # the translator is an ADDITIONAL tie for the arithmetic kernel; when it cannot follow the source's shape the
+        # kernel stays tied by the differential correspondence of this same run (every arith case above) — said in the evidence
+        ctx.coverage["m3_ptr_status"] = "NOT TRANSLATED this run (tie falls back to the differential correspondence): " + M3["untranslated"]
+        print("NOTE C05: pointer-operator AST not translated (%s); tie = differential correspondence only" % M3["untranslated"][:160])
+        return
+    n = M3.get("lemmas", 0)
+    ctx.coverage["obligations"] = ctx.coverage.get("obligations", 0) + n
+    ctx.coverage["discharged"] = ctx.coverage.get("discharged", 0) + (n if not M3["failed"] else 0)
+    ctx.coverage["m3_ptr_status"] = "translated"
+    ctx.coverage["m3_ptr_generated_lemmas_proved_for_all_inputs"] = n if not M3["failed"] else 0
+    ctx.coverage["m3_ptr_samples"] = M3.get("sample", {})
+    for name, out in M3["failed"][:3]:
+        ctx.violations.append({"kind": "broken-proof", "case": "Gen_PtrPrograms: " + name, "impl": "", "model": out, "spec": "", "class": "m3",
+                               "what": "the program translated from the AST of this instantiated pointer operator is no longer provably equal to Ptr.ptr_arith / ptr_index_gen for all inputs"})
 DRIVERS = drivers("ARITH", ["arith", "stride"])
 PTEES = {"char": (1, 1), "short": (2, 2), "int": (4, 4), "long": (4, 4), "ulong": (4, 4), "llong": (8, 8), "double": (8, 8),
          "ptr": (4, 2), "arr4": (16, 16), "larr3": (12, 12), "ps": (32, 32)}   # guest stride under (cfg32, cfg16)
@@ -71,5 +126,8 @@ RULE = ("per configuration (verif32: 4 GiB regions, 32-bit rep; verif16: 64 KiB 
         "11 pointee types x bases {first, second, last element, interior, null, other sandbox} x forms {+ - += -= ++p p++ --p p-- &p[n]} x index kinds "
         "x n in {0, +-1, distance to each end +-1, +-nelem, type limits, +-2^31, 2^32(+1), 2^62(+1), 2^63, 2^64-1, 2^64/stride(+1), random}, "
         "plain/tainted/tainted_volatile operands; stride probed as sizeof(tainted_volatile<T>) and &p[1]-&p[0]. distinct = distinct case line; non-trivial = every arith case")
-TRUSTED = ["models coq/Ptr.v (arith_form, ptr_arith) and coq/Layout.v (sizeof) hand-written; tied by differential correspondence with absolute addresses"]
+TRUSTED = ["models coq/Ptr.v (arith_form, ptr_arith) and coq/Layout.v (sizeof) hand-written; tied by differential correspondence with absolute addresses",
+           "M3 (pointer operators): harness/m3_ptr.py translator from clang 14's JSON AST; assumed of the nodes it treats as transparent: detail::unwrap_value of a plain integer is that integer, "
+           "impl().get_raw_value() is the address held, tainted<T*>::internal_factory(a) designates a, *wrapper designates the address the wrapper holds, "
+           "sizeof(tainted_volatile<T>) is the guest-ABI size of T (checked by the stride cases of this same run), pointer<->integer casts are the identity (64-bit host)"]
 ASSUMPTIONS = ["back end honours the isolating contract world_ok (regions disjoint, non-null, below 2^64); verif16/verif32 are instances"]
